@@ -17,12 +17,14 @@ def sh(cmd, cwd, env=None, timeout=1800):
 
 
 def one(pid):
-    wt = WT_PREFIX + pid[1:] if WT_PREFIX.endswith('R') else '/tmp/wt/' + pid
+    wt = os.path.join(WT_PREFIX, pid)
     out = []
     sh('git checkout -- . && git clean -fdq', wt)
     for diff in sorted(glob.glob(BASE + '/%s/m*.diff' % pid)):
         k = os.path.basename(diff)[1:-5]
         demo = BASE + '/%s/demo_m%s.py' % (pid, k)
+        if not os.path.exists(demo):
+            demo = BASE + '/%s/demo%s.py' % (pid, k)
         env = {'PYTHONPATH': wt, 'FLOWCAL_ROOT': wt, 'MPLBACKEND': 'Agg'}
         res = {'property': pid, 'mutant': 'm' + k}
         rc0, o0 = sh('/venv/bin/python %s' % demo, wt, env)
